@@ -32,6 +32,40 @@ where
     sweep_named(rep, sub, n, f, |i| vec![format!("case-index:{i}")])
 }
 
+/// Order independence: operation sequences of depth 2 over a menu of `m` judged operations, run on ONE thread while
+/// nothing else calls the library. For every ordered pair (i, j) operation i is executed, then operation j is executed and
+/// judged by its usual oracle: an operation whose answer depends on what was called before it (a memo, a cursor left in a
+/// table, a thread-local scratch value) is wrong for some pair although it is right on a fresh process. A violation is
+/// reported as order dependence only if the same operation j is judged right when it follows itself.
+pub fn order_pairs<F>(rep: &mut Report, sub: &str, m: u64, f: F)
+where
+    F: Fn(u64, &mut Local) + Sync,
+{
+    sweep(rep, sub, 1, |_, out| {
+        let mut pairs = 0u64;
+        for i in 0..m {
+            for j in 0..m {
+                let mut scratch = Local::new();
+                f(i, &mut scratch);
+                let mut probe = Local::new();
+                f(j, &mut probe);
+                pairs += 1;
+                if !probe.viols.is_empty() {
+                    let mut again = Local::new();
+                    f(j, &mut again);
+                    if again.viols.is_empty() {
+                        let v = &probe.viols[0];
+                        out.viol(sub, "result-depends-on-the-previous-call".into(), vec!["rerun".into()], format!("operation #{j} judged as when it follows itself: holds"), format!("after operation #{i}: {} (expected {}, observed {})", v.sig, v.expected, v.observed));
+                        return;
+                    }
+                }
+            }
+        }
+        out.ok(2 * pairs, true, 0);
+        out.sample(sub, vec![m.to_string()], format!("{pairs} ordered pairs of operations, every second answer unchanged by the first"), true);
+    });
+}
+
 /// Like `sweep`, with a function that names case `i` (used only when the watchdog has to report a hang).
 /// Watchdog: a case that runs longer than the limit is reported as a violation of the no-hang clause with that
 /// case as the replay; the stuck thread cannot be stopped, so the run ends there (never called exhaustive).
